@@ -13,9 +13,9 @@ def _canon(req, out):
 CFG = {
     "level": "translation_validation",
     "level_text": "Translation validation: for every request the Lean driver establishes that the block-YAML, flow-YAML and JSON "
-                  "inputs denote the same tree (loadRef on both YAML renderings, a JSON reader on the JSON; theorem "
-                  "json_yaml_same_tree_partial covers the flow-YAML/double-quoted layer, the other layers are evaluated per "
-                  "request); the evaluator's independence of the presentation is tied, not proved: `succinctly yq -o json` is "
+                  "inputs denote the same tree (loadRef on both YAML renderings, a JSON reader on the JSON; theorems "
+                  "yaml_renderings_same_tree / yaml_syntax_irrelevant (from C14's render_load) prove the YAML side for every "
+                  "admissible rendering, the JSON reader's round trip is evaluated per request); the evaluator's independence of the presentation is tied, not proved: `succinctly yq -o json` is "
                   "run on the three inputs with the same generated presentation-blind program and exit code + stdout must be "
                   "byte-identical.",
     "level_note": "Streams showing a presentation feature with a recorded C14 loader finding are not generated here "
@@ -24,9 +24,12 @@ CFG = {
     "variants": [{"features": [], "env": {"SV_CLI": _CLI}}],
     "needs_cli": True,
     "lean_modules": ["SuccinctlyVerif.Props.C26"],
-    "lean_files": ["SuccinctlyVerif/Props/C26.lean"],
+    "lean_files": ["SuccinctlyVerif/Props/C26.lean", "SuccinctlyVerif/Proof/YamlRefDocs.lean"],
+    "required_theorems": ["SV.Props.C26.yaml_renderings_same_tree", "SV.Props.C26.yaml_syntax_irrelevant"],
     "generated": [],
     "canon": _canon,
-    "rule": "request = one tree (12 generated sub-trees) in three renderings x one program applied to every sub-tree",
+    "rule": "request = one tree (24 generated sub-trees) in three renderings x five programs applied to every sub-tree (3 CLI runs); "
+            "nav request = one tree carrying integers around 2^53, at both ends of the i64 range and 10^15..10^18, one navigation "
+            "(streamable) or evaluator program, 4 CLI runs (block YAML, flow YAML, JSON on stdin with -p json, JSON as a *.json file)",
     "explanation": "yq -o json output (exit code + stdout) identical for JSON, block YAML and flow YAML input of the same tree",
 }
